@@ -38,6 +38,7 @@ type declT struct {
 	byID    bool
 	outKind int // -1 none
 	cached  bool
+	upd     bool // the declaration is reached through UpdateInputs from a different initial input
 }
 
 func (d declT) String() string {
@@ -50,6 +51,9 @@ func (d declT) String() string {
 	c := ""
 	if d.cached {
 		c = "+cached"
+	}
+	if d.upd {
+		c += "+via-UpdateInputs"
 	}
 	return fmt.Sprintf("%s/%s/out-%s%s", kinds[d.kind], id, out, c)
 }
@@ -327,7 +331,24 @@ func runCase(x *explore.X, d declT, op string, t target, owner string) (steps in
 			}
 		} else {
 			p := &px.Probe{NameV: self, InputsV: []controller.Input{in}, OutputsV: outs}
-			p.OnEvent = func(ctx context.Context, r controller.Runtime, _ int) error { perform(ctx, r); return nil }
+			if d.upd {
+				// start from the same key with the "opposite" kind (strong <-> weak): only the kind changes
+				init := in
+				init.Kind = controller.InputStrong
+				if d.kind == controller.InputStrong {
+					init.Kind = controller.InputWeak
+				}
+				p.InputsV = []controller.Input{init}
+			}
+			p.OnEvent = func(ctx context.Context, r controller.Runtime, _ int) error {
+				if d.upd && !done {
+					if err := r.UpdateInputs([]controller.Input{in}); err != nil {
+						panic(err)
+					}
+				}
+				perform(ctx, r)
+				return nil
+			}
 			if err := rt.RegisterController(p); err != nil {
 				panic(err)
 			}
@@ -422,6 +443,9 @@ func build(tier string) []explore.Scenario {
 						continue
 					}
 					out = append(out, scenario(declT{q: kind >= 3, kind: kind, byID: byID, outKind: outKind, cached: cached}))
+					if kind < 3 && !cached {
+						out = append(out, scenario(declT{kind: kind, byID: byID, outKind: outKind, upd: true}))
+					}
 				}
 			}
 		}
